@@ -125,7 +125,126 @@ func c03Cases(tier string, seed int64) []core.Case {
 			return c03LateAfterCancel(ctx, dotu)
 		}})
 	}
+	// a Tflush is a request too: it gets exactly one reply wherever it meets the request it names
+	for _, dotu := range []bool{true, false} {
+		for _, flushop := range []bool{false, true} {
+			dotu, flushop := dotu, flushop
+			cases = append(cases, core.Case{ID: fmt.Sprintf("tflush-meets-finishing-request/flushop=%v/dotu=%v", flushop, dotu), Run: func(ctx *core.Ctx) core.Result {
+				return c03FlushMeets(ctx, dotu, flushop)
+			}})
+		}
+	}
 	return cases
+}
+
+// c03FlushMeets: the worker of a Tflush is parked at each point of Srv.flush while the request it names is answered
+// and passes each point of Respond; both requests must end up with exactly one reply each (the flushed one is
+// answered here, it is not cancelled: its answer is already on its way), and nothing else may appear on the wire.
+func c03FlushMeets(ctx *core.Ctx, dotu, flushop bool) core.Result {
+	var res core.Result
+	s := NewSess(Config{Dotu: dotu, Msize: 8192, Flush: flushop, TracePoints: true})
+	c := s.Dial()
+	defer func() {
+		s.Ctl.ReleaseAll()
+		c.Hangup()
+	}()
+	ver := "9P2000"
+	if dotu {
+		ver = "9P2000.u"
+	}
+	if r, err := c.Version(8192, ver, W); err != nil || r.Msg == nil {
+		res.Inconclusive = "c03: version failed"
+		return res
+	}
+	tag := uint16(0)
+	rpc := func(m *wire.Msg) *wire.Msg {
+		tag++
+		m.Tag = tag
+		r, err := c.Rpc(m, W)
+		if err != nil || r.Msg == nil {
+			return nil
+		}
+		return r.Msg
+	}
+	if a := rpc(&wire.Msg{Type: wire.Tattach, Fid: 1, Afid: wire.NOFID, Uname: "root", Nuname: 0}); a == nil || a.Type != wire.Rattach {
+		res.Inconclusive = "c03: attach failed"
+		return res
+	}
+	fpoints := []string{"process.start", "process.marked", "flush.enter", "flush.chained", "flush.decided"}
+	tpoints := []string{"respond.enter", "respond.claimed", "respond.posted", "respond.queued", "respond.unlinked", "respond.exit", "process.done", "send.written"}
+	for _, fp := range fpoints {
+		for _, tp := range tpoints {
+			if len(res.Violations) >= 3 {
+				return res
+			}
+			ctx.Beat()
+			tag++
+			target := &wire.Msg{Type: wire.Tstat, Fid: 1, Tag: tag}
+			plan := script.NewPlan()
+			plan.Gate = make(chan struct{})
+			plan.Entered = make(chan struct{})
+			s.Ops.SetPlan(c.ID, target.Tag, plan)
+			s.Ops.SetFlushMode(c.ID, target.Tag, "ignore")
+			seq0 := s.Log.Seq()
+			_ = c.Send(target)
+			select {
+			case <-plan.Entered:
+			case <-time.After(W):
+				res.Inconclusive = "c03: target never started"
+				close(plan.Gate)
+				return res
+			}
+			tag++
+			flush := &wire.Msg{Type: wire.Tflush, Oldtag: target.Tag, Tag: tag}
+			hF := s.Ctl.HoldAt(fp, c.ID, int(flush.Tag), sched.AnyTag, 20*time.Second)
+			_ = c.Send(flush)
+			parked := hF.WaitReached(2 * time.Second)
+			close(plan.Gate)
+			passed := parked && s.Ctl.WaitPassed(tp, c.ID, int(target.Tag), 1, 2*time.Second)
+			hF.Release()
+			res.Evals++
+			det := map[string]interface{}{"flusher_parked_at": fp, "until_target_passed": tp, "flushop": flushop, "dotu": dotu}
+			if parked && passed {
+				res.Sig(fmt.Sprintf("flush-meets|%s|%s|%v|%v", fp, tp, flushop, dotu))
+				res.Count("flush_orderings_arranged", 1)
+			} else {
+				res.Count("flush_orderings_infeasible", 1)
+			}
+			var e script.Event
+			for _, ev := range s.Log.Snapshot(seq0) {
+				if ev.Kind == "op" && ev.Tag == target.Tag {
+					e = ev
+				}
+			}
+			rt, err := c.WaitTag(target.Tag, W)
+			if err != nil || rt.Msg == nil {
+				res.Violate("C03;missing-reply;flush-meets;target;"+fp+";"+tp, "the request named by a Tflush was answered by the implementation before the flush took effect and its reply never arrived", det)
+			} else if want := wire.Encode(expectedReply(target, plan, e, go9p.QTDIR, dotu), dotu); !bytes.Equal(want, rt.Raw) {
+				res.Violate("C03;wrong-content;flush-meets;"+fp+";"+tp, "reply to a request that met a Tflush is not what the implementation produced: "+rt.Msg.String(), det)
+			}
+			rf, err := c.WaitTag(flush.Tag, W)
+			if err != nil || rf.Msg == nil {
+				res.Violate("C03;missing-reply;flush-meets;tflush;"+fp+";"+tp, fmt.Sprintf("Tflush (tag %d) got no reply", flush.Tag), det)
+			} else if rf.Msg.Type != wire.Rflush {
+				res.Violate("C03;wrong-type;flush-meets;"+fp+";"+tp, "Tflush answered with "+rf.Msg.String(), det)
+			}
+			c.Quiesce(W)
+			for _, r := range c.Pending() {
+				what := "undecodable frame"
+				if r.Msg != nil {
+					what = r.Msg.String()
+				}
+				res.Violate("C03;extra-reply;flush-meets;"+fp+";"+tp, "a frame nobody is waiting for: "+what, det)
+			}
+			for {
+				if _, err := c.Next(time.Millisecond); err != nil {
+					break
+				}
+			}
+		}
+	}
+	res.Sample(map[string]interface{}{"scenario": "Tflush parked at a point of Srv.flush while the request it names is answered", "flusher_points": fpoints, "target_points": tpoints})
+	return res
 }
 
 // c03LateAfterCancel: request A is cancelled by the implementation's FlushOp calling req.Flush() while A's worker
